@@ -69,10 +69,12 @@ HOST_NORMALISING = {"EXAMPLE.COM": "example.com", "[2001:DB8:0:0:0:0:0:1]": "200
                     "bücher.example": "xn--bcher-kva.example"}
 TEXTS = ["hello", "", "with space", "üñí çødé ✓", "a,b", 'quo"te', "trailing ", "x" * 300,
          "日本語", "line1\nline2", "tab\there", "d3:foo3:bare", "0", "UTF-8"]
-NAMES = ["my torrent", "näme", "x", "archive.tar.gz", "a,b", "日本", "name with  two spaces", "torrent.torrent"]
-FILE_NAMES = ["file.bin", "a b.txt", "ünï.dat", "README", "data.tar.gz"]
-DIR_NAMES = ["dir", "my dir", "dïr", "content.d"]
-COMPONENTS = ["a", "b", "sub", "x y", "é", "Z", "a.txt", "b.txt", "0", "deep", "aa", "a-b", "B"]
+# names include valid UTF-8 that is not in Unicode normal form C (decomposed accents as macOS hands them out, OHM SIGN,
+# conjoining jamo): what was requested is that byte string (added after seeded change C05-15: the default name composed to NFC)
+NAMES = ["my torrent", "näme", "x", "archive.tar.gz", "a,b", "日本", "name with  two spaces", "torrent.torrent", "Cafe\u0301 n", "\u212b"]
+FILE_NAMES = ["file.bin", "a b.txt", "ünï.dat", "README", "data.tar.gz", "Cafe\u0301.bin", "\u2126hm", "\u1112\u1161\u11ab.txt"]
+DIR_NAMES = ["dir", "my dir", "dïr", "content.d", "Cafe\u0301", "\u212a elvin.d", "\u1112\u1161\u11ab"]
+COMPONENTS = ["a", "b", "sub", "x y", "é", "Z", "a.txt", "b.txt", "0", "deep", "aa", "a-b", "B", "e\u0301", "\u2126"]
 SIZES = [0, 1, 5, 100, 4096, 16383, 16384, 16385, 32768, 40000]
 WORDS = ["alpha", "b", "gamma-delta", "0123456789", "zz", "word"]
 OPTION_NAMES = ["announce", "tiers", "comment", "source", "nodes", "private", "update_url", "name", "piece_length", "md5",
@@ -116,6 +118,10 @@ def gen_case(r, given=None, tree_kind=None):
     if given is None:
         given = {o for o in OPTION_NAMES if r.random() < 0.5}
     tree = gen_tree(r, tree_kind)
+    if tree["kind"] in ("file", "dir") and r.random() < 0.12:
+        # the input is a symbolic link (`current -> payload-2024-03-01`) followed with --follow-symlinks: the name requested by
+        # default is the name the input was GIVEN by (added after seeded change C05-14: the name was taken from the link target)
+        tree["link_target"] = "payload-2024-03-01" + ("" if tree["kind"] == "dir" else ".bin")
     c = {"announce": None, "tiers": [], "comment": None, "source": None, "nodes": [], "private": False, "update_url": None,
          "name": None, "piece_length": None, "md5": False, "no_created_by": False, "no_creation_date": False,
          "allow": [], "tree": tree, "output": r.choice(["stdout", "path", "default"]), "style": r.getrandbits(30),
@@ -238,7 +244,9 @@ def make_tree(root, tree, order):
     """populate root/<name>; `order` permutes the creation order of the directory entries"""
     if tree["kind"] == "stdin":
         return None
-    top = os.path.join(root, tree["name"])
+    top = os.path.join(root, tree.get("link_target") or tree["name"])
+    if tree.get("link_target"):
+        os.symlink(tree["link_target"], os.path.join(root, tree["name"]))
     if tree["kind"] == "file":
         f = tree["files"][0]
         with open(top, "wb") as fh:
@@ -304,6 +312,8 @@ def argv_of(c, extra_no_date=False):
         groups.append(("o", [pick("--output", "-o"), "out.torrent"]))
     inp = "-" if tree["kind"] == "stdin" else tree["name"]
     groups.append(("o", [pick("--input", "-i"), inp]))
+    if tree.get("link_target"):
+        groups.append(("o", [pick("--follow-symlinks", "-F")]))
     # shuffle, keeping tiers and nodes in their relative order
     kinds = [g[0] for g in groups]
     r.shuffle(kinds)
@@ -580,6 +590,8 @@ def shell_repro(c, no_date=False):
         for f in tree["files"]:
             p = os.path.join(tree["name"], *f["path"])
             cmds.append("mkdir -p %s && yes %s | head -c %d > %s" % (shlex.quote(os.path.dirname(p)), shlex.quote(f["word"]), f["size"], shlex.quote(p)))
+    if tree.get("link_target"):
+        cmds.append("mv %s %s && ln -s %s %s" % (shlex.quote(tree["name"]), shlex.quote(tree["link_target"]), shlex.quote(tree["link_target"]), shlex.quote(tree["name"])))
     pre = ""
     if tree["kind"] == "stdin":
         f = tree["files"][0]
